@@ -60,7 +60,7 @@ Definition spec_view (v0 : view) (effs : list eff) : view :=
 
 (* the code path seen on views: one CloneBase *)
 Definition clone_view (v : view) (e : eff) : view :=
-  view_of (clone_base (mkG (v_name v) (v_msg v) (v_src v) (v_dtag v) (v_stack v) VNil VNil false)
+  view_of (clone_base (mkG (v_name v) (v_msg v) (v_src v) (v_dtag v) (v_stack v) VNil VNil [] false)
                       (VG 0) (VG 0) (e_stack e) (e_dtag e) (e_src e) (e_msg e) (e_serr e)
                       (e_site e) (e_derived e)).
 
